@@ -1453,7 +1453,8 @@ RULE = (
 )
 ASSUMPTIONS = [
     'class, keyvalue and I/O names are identifiers (ASCII, or with letters of 2-4 byte UTF-8 width that upper()/casefold() '
-    'map trivially); value types are ValueTypes members (custom string types need '
+    'map trivially; class names also with letters whose casefold() differs from lower(): sharp s, final sigma, long s, '
+    'fi ligature - classes are keyed by casefold()); value types are ValueTypes members (custom string types need '
     'ignore_unknown_valuetype and are outside the statement); classnames are unique ignoring case',
     'bases are EntityDef objects that are members of the same FGD, listed once, and only earlier entities (no loops)',
     'is_alias is not in the statement\'s list of text fields: export() writes aliasof() classes as base(); it is compared in the '
